@@ -3,6 +3,7 @@
 pub mod c01;
 pub mod c06;
 pub mod c19;
+pub mod enc_util;
 
 use pvc_engine::{Run, load_replay, parse_args};
 
